@@ -108,5 +108,5 @@ CONFIG = {
 # theorems that the translated definitions equal the model's, for all inputs (lean/VProps/TransStateRes.lean)
 CONFIG["lean"] = list(CONFIG["lean"]) + ["VProps.TransStateRes"]
 CONFIG["sources"] = list(CONFIG["sources"]) + ['VProps/TransStateRes.lean', 'VModel/GoSem.lean']
-CONFIG["theorems"] = list(CONFIG["theorems"]) + ['V.Trans.StateRes.powerLevelHeap_lt_eq_model', 'V.Trans.StateRes.powerLevelHeap_zero_iff', 'V.Trans.StateRes.otherHeap_lt_eq_model']
+CONFIG["theorems"] = list(CONFIG["theorems"]) + ['V.Trans.StateRes.powerLevelHeap_lt_eq_model', 'V.Trans.StateRes.powerLevelHeap_zero_iff', 'V.Trans.StateRes.otherHeap_lt_eq_model', 'V.Trans.StateRes.powerLevelHeap_strict_total', 'V.Trans.StateRes.v1Less_eq_model']
 CONFIG["trusted"] = list(CONFIG["trusted"]) + ["tools/extract/trans.go: the Go-to-Lean translation of the whitelisted functions and the Go semantics of lean/VModel/GoSem.lean (DESIGN.md §14)"]
